@@ -1,47 +1,121 @@
-"""Witnesses of the C19 findings (recorded, not repaired): each returns a string while the defect is present."""
+"""Witnesses of the C19 findings: each returns a string while the defect is present.
+Repaired defects keep their witness (it must pass on the repaired code); the two findings that are still recorded
+have a witness for what is left of them."""
 from witnesses import witness
 
 
+def _accepted(cls, key, v):
+    try:
+        c = cls.parse({key: v})
+    except (ValueError, TypeError, AttributeError, ZeroDivisionError):
+        return None
+    return f"{key}={v!r} -> {getattr(c, key)!r}"
+
+
+# ---------------------------------------------------------------- repaired
 @witness("C19", "bool-decoders-accept-anything")
 def _():
+    from ttconv.config import GeneralConfiguration
     from ttconv.srt.config import SRTWriterConfiguration
     from ttconv.vtt.config import VTTWriterConfiguration
+    from ttconv.stl.config import STLReaderConfiguration
+    from ttconv.filters.doc.lcd import LCDDocFilterConfig
     bad = []
-    for v in ("no", "false", "0", [0]):
-        try:
-            c = SRTWriterConfiguration.parse({"text_formatting": v})
-        except (ValueError, TypeError):
-            continue
-        bad.append(f"text_formatting={v!r} -> {c.text_formatting}")
-    try:
-        c = VTTWriterConfiguration.parse({"cue_id": None})
-        if c.cue_id is not True: bad.append(f"cue_id=null -> {c.cue_id} (default true)")
-    except (ValueError, TypeError):
-        pass
+    for cls, key in ((SRTWriterConfiguration, "text_formatting"), (VTTWriterConfiguration, "cue_id"), (VTTWriterConfiguration, "line_position"),
+                     (VTTWriterConfiguration, "text_align"), (STLReaderConfiguration, "disable_fill_line_gap"), (STLReaderConfiguration, "disable_line_padding"),
+                     (LCDDocFilterConfig, "preserve_text_align"), (GeneralConfiguration, "progress_bar")):
+        for v in ("no", "false", "0", [0], 0, 1, None):
+            r = _accepted(cls, key, v)
+            if r: bad.append(r)
+        for v in (True, False):
+            if getattr(cls.parse({key: v}), key) is not v: bad.append(f"{key}={v!r} not kept")
+    if bad: return "; ".join(bad[:6])
+
+
+@witness("C19", "safe-area-coerced")
+def _():
+    from ttconv.filters.doc.lcd import LCDDocFilterConfig
+    bad = [r for v in ("10", " 1_0 ", 10.7, True, "٣", 30.0) for r in [_accepted(LCDDocFilterConfig, "safe_area", v)] if r]
+    for v in (0, 10, 30):
+        if LCDDocFilterConfig.parse({"safe_area": v}).safe_area != v: bad.append(f"safe_area={v} not kept")
     if bad: return "; ".join(bad)
 
 
+@witness("C19", "fps-lenient")
+def _():
+    from fractions import Fraction
+    from ttconv.imsc.config import IMSCWriterConfiguration
+    bad = [r for v in ("-25/1", "0/1", " 25 / 1 ", "2_5/1", "+25/1", "٢٥/1", "25/1\n", "25/-1") for r in [_accepted(IMSCWriterConfiguration, "fps", v)] if r]
+    for v, want in (("25/1", Fraction(25)), ("30000/1001", Fraction(30000, 1001)), ("50/2", Fraction(25))):
+        if IMSCWriterConfiguration.parse({"fps": v}).fps != want: bad.append(f"fps={v!r} not {want}")
+    if bad: return "; ".join(bad)
+
+
+@witness("C19", "color-trailing-garbage")
+def _():
+    from ttconv.filters.doc.lcd import LCDDocFilterConfig
+    from ttconv.style_properties import ColorType
+    bad = [r for v in ("#FF0000zz", "rgb(1,2,3) x", "rgb(300,0,0)", "rgba(1,2,3,256)", "rgb(١,2,3)", "#FF00008", "rgba(1,2,3,4)junk", "rgb(1,2,3)\n")
+           for r in [_accepted(LCDDocFilterConfig, "color", v)] if r]
+    for v, want in (("#FF0000", (255, 0, 0, 255)), ("#00ff0080", (0, 255, 0, 128)), ("rgb(255,255,255)", (255, 255, 255, 255)), ("rgba(0,0,0,0)", (0, 0, 0, 0)),
+                    ("white", (255, 255, 255, 255)), ("transparent", (0, 0, 0, 0))):
+        if LCDDocFilterConfig.parse({"color": v}).color != ColorType(want): bad.append(f"color={v!r} not {want}")
+    if bad: return "; ".join(bad)
+
+
+@witness("C19", "start-tc-trailing-text")
+def _():
+    from ttconv.stl.config import STLReaderConfiguration
+    bad = [r for v in ("10:00:00:00xyz", "10x00y00z00xyz", "10:00:00:000") for r in [_accepted(STLReaderConfiguration, "program_start_tc", v)] if r]
+    for v in ("TCP", "10:00:00:00", "00:00:00:00"):
+        if STLReaderConfiguration.parse({"program_start_tc": v}).program_start_tc != v: bad.append(f"program_start_tc={v!r} not kept")
+    if bad: return "; ".join(bad)
+
+
+@witness("C19", "max-row-count-bool")
+def _():
+    from ttconv.stl.config import STLReaderConfiguration
+    bad = [r for v in (True, False) for r in [_accepted(STLReaderConfiguration, "max_row_count", v)] if r]
+    for v in ("MNR", 23, 0):
+        if STLReaderConfiguration.parse({"max_row_count": v}).max_row_count != v: bad.append(f"max_row_count={v!r} not kept")
+    if bad: return "; ".join(bad)
+
+
+@witness("C19", "font-family-one-character")
+def _():
+    from ttconv.stl.config import STLReaderConfiguration
+    from ttconv.imsc.utils import parse_font_families
+    try:
+        if STLReaderConfiguration.parse({"font_stack": "a"}).font_stack != ("a",): return "font_stack='a' not ('a',)"
+        if parse_font_families("x, y") != ["x", "y"]: return f"parse_font_families('x, y') = {parse_font_families('x, y')!r}"
+    except ValueError as e:
+        return f"a one-character family is rejected: {e}"
+
+
+# ---------------------------------------------------------------- still recorded (what is left of them)
 @witness("C19", "undocumented-values-accepted")
 def _():
     from ttconv.filters.doc.lcd import LCDDocFilterConfig
-    from ttconv.imsc.config import IMSCWriterConfiguration
+    from ttconv.scc.config import SccReaderConfiguration
     from ttconv.stl.config import STLReaderConfiguration
     bad = []
-    for cls, key, v in ((LCDDocFilterConfig, "safe_area", "10"), (LCDDocFilterConfig, "safe_area", 10.7), (LCDDocFilterConfig, "color", "rgb(300,0,0)"),
-                        (LCDDocFilterConfig, "color", "#FF0000zz"), (IMSCWriterConfiguration, "fps", "-25/1"), (IMSCWriterConfiguration, "fps", "0/1"),
-                        (STLReaderConfiguration, "program_start_tc", "10x00y00z00xyz"), (STLReaderConfiguration, "max_row_count", True)):
-        try:
-            c = cls.parse({key: v})
-        except (ValueError, TypeError, AttributeError):
-            continue
-        bad.append(f"{key}={v!r} -> {getattr(c, key)!r}")
+    for cls, key, v in ((SccReaderConfiguration, "text_align", "LEFT"), (STLReaderConfiguration, "program_start_tc", "tcp"),
+                        (STLReaderConfiguration, "program_start_tc", "10x00y00z00"), (STLReaderConfiguration, "max_row_count", "mnr"),
+                        (LCDDocFilterConfig, "color", "RED"), (LCDDocFilterConfig, "bg_color", "rgb( 1 , 2 , 3 )"), (STLReaderConfiguration, "font_stack", "a,,b")):
+        r = _accepted(cls, key, v)
+        if r: bad.append(r)
+    import logging
+    try:
+        logging.Logger("c19-witness").setLevel("DEBUG"); bad.append("log_level='DEBUG' accepted")
+    except ValueError:
+        pass
     if bad: return "; ".join(bad)
 
 
 @witness("C19", "documented-values-rejected")
 def _():
-    from ttconv.stl.config import STLReaderConfiguration
+    from ttconv.imsc.config import IMSCWriterConfiguration
     try:
-        STLReaderConfiguration.parse({"font_stack": "a"})
+        IMSCWriterConfiguration.parse({"fps": "0" * 4300 + "25/1"})
     except ValueError as e:
-        return f"font_stack='a' rejected: {e}"
+        return f"fps with a 4302-digit numerator rejected: {str(e)[:60]}"
